@@ -5,6 +5,7 @@ import (
 	"runtime"
 	"sync"
 	"sync/atomic"
+	"time"
 
 	"github.com/bradenaw/juniper/xsync"
 
@@ -23,7 +24,9 @@ import (
 //
 // Variants: "VVS" two Values and one Set on a Watchable that holds a value; "VVS-unset" the same on
 // a Watchable that was never Set (Value racing the first Set: zero or the new value); "VSS" one
-// Value and two Sets.
+// Value and two Sets; "SSS" three first Sets on a never-Set Watchable (every other round an observer
+// has taken Value() before): no panic, the quiescent Value() is one of the three, every channel
+// handed out before is closed, and the survivor's channel is closed by one more Set.
 
 const sweepBatch = 10000
 
@@ -33,8 +36,8 @@ type sweepRes struct {
 }
 
 func watchableSweep(r *vkit.Report) {
-	perVariant := map[string]int{"VVS": scale4(r, 15, 30, 50, 60), "VVS-unset": scale4(r, 4, 6, 20, 20), "VSS": scale4(r, 4, 6, 20, 20)}
-	order := []string{"VVS", "VVS-unset", "VSS"}
+	perVariant := map[string]int{"VVS": scale4(r, 15, 30, 50, 60), "VVS-unset": scale4(r, 4, 6, 20, 20), "VSS": scale4(r, 4, 6, 20, 20), "SSS": scale4(r, 4, 60, 30, 120)}
+	order := []string{"VVS", "VVS-unset", "VSS", "SSS"}
 	if runtime.GOMAXPROCS(0) < 4 {
 		// without three processors the parties cannot be released together: a short run only
 		for k := range perVariant {
@@ -117,16 +120,23 @@ func sweepCase(c *vkit.Case, variant string) {
 	setParty := func(which int) func(rd int64, w *xsync.Watchable[int64]) {
 		return func(rd int64, w *xsync.Watchable[int64]) {
 			_, n1, n2 := vals(rd)
-			if which == 1 {
+			switch which {
+			case 1:
 				w.Set(n1)
-			} else {
+			case 2:
 				w.Set(n2)
+			default:
+				w.Set(base + 4*rd) // third value of the round (variant SSS)
 			}
 		}
 	}
 	wg.Add(3)
-	go party(0, valueParty(0))
-	if variant == "VSS" {
+	if variant == "SSS" {
+		go party(0, setParty(3))
+	} else {
+		go party(0, valueParty(0))
+	}
+	if variant == "VSS" || variant == "SSS" {
 		go party(1, setParty(2))
 	} else {
 		go party(1, valueParty(1))
@@ -138,25 +148,57 @@ func sweepCase(c *vkit.Case, variant string) {
 	if variant == "VSS" {
 		nValues = 1
 	}
+	if variant == "SSS" {
+		nValues = 0
+	}
 	counts := make(map[string]int)
 	mixed := make(map[[3]int64]struct{})
 	for rd := int64(1); rd <= sweepBatch; rd++ {
 		old, n1, n2 := vals(rd)
 		nw := new(xsync.Watchable[int64])
-		if variant != "VVS-unset" {
-			nw.Set(old)
-		} else {
+		n3 := base + 4*rd
+		observed := false
+		switch variant {
+		case "VVS-unset":
 			old = 0
+		case "SSS":
+			// three first Sets on a fresh Watchable; in every other round an observer has taken
+			// Value() before (so there is a channel that has to be closed)
+			old = 0
+			if rd%2 == 0 {
+				observed = true
+				if p := vkit.Try(func() { res[0].v, res[0].ch = nw.Value() }); p != nil {
+					c.Violation("sweep-panic", fmt.Sprintf("three-party sweep SSS, round %d: Value on a fresh Watchable panicked: %s", rd, p.Msg), nil)
+					return
+				}
+			}
+		default:
+			nw.Set(old)
 		}
 		wp.Store(nw)
 		done.Store(0)
 		round.Store(rd)
-		for done.Load() != 3 {
+		var t0 time.Time
+		for it := 1; done.Load() != 3; it++ {
 			runtime.Gosched()
+			if it%128 != 0 {
+				continue
+			}
+			// a round is microseconds; if it has not completed after about a millisecond the
+			// machine is oversubscribed and a party has lost its processor: sleep instead of
+			// spinning so that it gets one (no verdict depends on this)
+			if t0.IsZero() {
+				t0 = time.Now()
+			} else if time.Since(t0) > time.Millisecond {
+				time.Sleep(20 * time.Microsecond)
+			}
 		}
 		witness := func() map[string]any {
 			m := map[string]any{"variant": variant, "round": rd, "spin_before_call": []int64{offset(0, rd), offset(1, rd), offset(2, rd)},
-				"old": old, "set_values": []int64{n1, n2}[:3-nValues]}
+				"old": old, "set_values": []int64{n1, n2, n3}[:3-nValues]}
+			if observed {
+				m["observer_before_the_round"] = map[string]any{"returned": res[0].v, "channel_closed": isClosed(res[0].ch)}
+			}
 			for i := 0; i < nValues; i++ {
 				m[fmt.Sprintf("value_%d", i)] = map[string]any{"returned": res[i].v, "channel_closed": isClosed(res[i].ch)}
 			}
@@ -185,6 +227,42 @@ func sweepCase(c *vkit.Case, variant string) {
 				c.Violation("channel-closed-without-later-set", fmt.Sprintf("three-party sweep VSS, round %d: the channel returned with the current value %d is closed", rd, current), witness())
 				return
 			}
+		}
+		if variant == "SSS" {
+			var ch chan struct{}
+			if p := vkit.Try(func() { current, ch = nw.Value() }); p != nil {
+				c.Violation("sweep-panic", fmt.Sprintf("three-party sweep SSS, round %d: Value panicked: %s", rd, p.Msg), witness())
+				return
+			}
+			r.Eval(3)
+			if current != n1 && current != n2 && current != n3 {
+				c.Violation("sweep-value", fmt.Sprintf("three-party sweep SSS, round %d: after Set(%d), Set(%d) and Set(%d) returned, Value returns %d", rd, n1, n2, n3, current), witness())
+				return
+			}
+			if isClosed(ch) {
+				c.Violation("channel-closed-without-later-set", fmt.Sprintf("three-party sweep SSS, round %d: the channel returned with the current value %d is closed", rd, current), witness())
+				return
+			}
+			if observed && (res[0].v != 0 || !isClosed(res[0].ch)) {
+				c.Violation("channel-open-after-later-set", fmt.Sprintf("three-party sweep SSS, round %d (spins %d/%d/%d): an observer got (%d, channel) from the fresh Watchable; after three Sets have returned that channel is closed=%v",
+					rd, offset(0, rd), offset(1, rd), offset(2, rd), res[0].v, isClosed(res[0].ch)), witness())
+				return
+			}
+			// one more Set, from here: the channel of the surviving value must be closed by it
+			if p := vkit.Try(func() { nw.Set(-rd) }); p != nil {
+				c.Violation("sweep-panic", fmt.Sprintf("three-party sweep SSS, round %d: a later Set panicked: %s [%s]", rd, p.Msg, p.JuniperFrame()), witness())
+				return
+			}
+			if !isClosed(ch) {
+				c.Violation("channel-open-after-later-set", fmt.Sprintf("three-party sweep SSS, round %d (spins %d/%d/%d): the channel returned with value %d (the survivor of three concurrent first Sets) is still open after a later Set has returned",
+					rd, offset(0, rd), offset(1, rd), offset(2, rd), current), witness())
+				return
+			}
+			counts[fmt.Sprintf("SSS: party %d's Set survived", map[int64]int{n1: 2, n2: 1, n3: 0}[current])]++
+			if observed {
+				counts["SSS: rounds with an observer's channel from before the first Set"]++
+			}
+			continue
 		}
 		sawOld, sawNew := 0, 0
 		for i := 0; i < nValues; i++ {
